@@ -487,6 +487,17 @@ def r5(cx):
             return any((Q.operand_place(o) or {}).get('l') in copies for o in (org['rv'].get('a'), org['rv'].get('b'), org['rv'].get('o')) if o)
         return False
 
+    def susp_when(org):
+        """'before' / 'after' when org is a call of an is-suspended test that runs before / after every store of Job::state."""
+        if org.get('k') != 'call' or not Q.callee_is(org['t'], SUSPENDED_TESTS):
+            return None
+        cb = org['b']
+        if all(body.dominates(w, cb) for w in state_w):
+            return 'after'
+        if all(body.dominates(cb, w) for w in state_w):
+            return 'before'
+        return None
+
     writes = []
     for fld in ('current_job_index', 'previous_job_index'):
         for blk, j, s, kind, f in Q.field_writes(body, JOBLIST, fld):
@@ -494,22 +505,49 @@ def r5(cx):
     cx.require(len(writes) >= 3, 'update_status no longer reselects the current/previous job (found %d writes)' % len(writes))
     for fld, blk, s in writes:
         cs = Q.implied_conditions(F, body, du, blk)
-        susp = []
+        # what the dominating tests say about Job::is_suspended before / after the state is stored: direct tests of a call result
+        # (`if was_suspended`, `if !job.is_suspended()`) give the value of that call, a comparison of two such results
+        # (`was_suspended == is_suspended`, `!=`, `^`) relates them; a value follows from the other one through the relation
+        known, rel, when_of = {}, [], {}
         for org, lab, e in cs:
-            if org['k'] == 'call' and Q.callee_is(org['t'], SUSPENDED_TESTS) and lab[0] == 'bool':
-                cb = org['b']
-                if all(body.dominates(w, cb) for w in state_w):
-                    susp.append(('after', lab[1], cb))
-                elif all(body.dominates(cb, w) for w in state_w):
-                    susp.append(('before', lab[1], cb))
+            org, lab = Q.peel_not(du, org, lab)
+            if not lab or lab[0] != 'bool':
+                continue
+            if org['k'] == 'call':
+                if susp_when(org) is not None:
+                    when_of[org['b']] = susp_when(org)
+                    known.setdefault(org['b'], set()).add(lab[1])
+            elif org['k'] == 'binop' and org['rv'].get('op') in ('Eq', 'Ne', 'BitXor'):
+                same = lab[1] if org['rv']['op'] == 'Eq' else not lab[1]
+                sides = []
+                for o in (org['rv']['a'], org['rv']['b']):
+                    so, neg = Q.peel_not(du, du.origin(o), ('bool', True))
+                    if not neg[1]:
+                        same = not same
+                    if so['k'] == 'const' and str(so['o'].get('c')) in ('true', 'false'):
+                        sides.append(('const', str(so['o'].get('c')) == 'true'))
+                    elif susp_when(so) is not None:
+                        when_of[so['b']] = susp_when(so)
+                        sides.append(('call', so['b']))
+                if len(sides) == 2 and sides[0][0] == 'call' and sides[1][0] == 'call':
+                    rel.append((sides[0][1], sides[1][1], same))
+                elif len(sides) == 2 and {sides[0][0], sides[1][0]} == {'call', 'const'}:
+                    cb = next(v for k, v in sides if k == 'call')
+                    cv = next(v for k, v in sides if k == 'const')
+                    known.setdefault(cb, set()).add(cv == same)
+        for _ in range(len(rel) + 1):
+            for a, b, same in rel:
+                for x, y in ((a, b), (b, a)):
+                    for v in list(known.get(x, ())):
+                        known.setdefault(y, set()).add(v == same)
         extra = [org for org, lab, e in cs if state_derived(org)]
         # the test of the updated job is the first one after the state is stored (later ones look at other jobs)
         trans = {}
         for when in ('before', 'after'):
-            c = [(lab, cb) for w2, lab, cb in susp if w2 == when]
-            first = [(lab, cb) for lab, cb in c if all(body.dominates(cb, cb2) for _, cb2 in c)]
-            if first:
-                trans[when] = first[0][0]
+            c = [cb for cb, w2 in when_of.items() if w2 == when]
+            first = [cb for cb in c if all(body.dominates(cb, cb2) for cb2 in c)]
+            if first and len(known.get(first[0], ())) == 1:
+                trans[when] = next(iter(known[first[0]]))
         cx.site('%s: write of %s at %s under suspended-before=%s, suspended-after=%s, state-specific tests: %d'
                 % (body.fn, fld, body.loc(s), trans.get('before'), trans.get('after'), len(extra)))
         if trans.get('before') is None or trans.get('after') is None or trans['before'] == trans['after']:
